@@ -1,3 +1,5 @@
 import Props.C01
+import Props.C07
 import Props.C08
 import Props.C13
+import Props.C14
